@@ -78,7 +78,8 @@ def payloads(rng, tier):
     kmax = {"quick": 3, "thorough": 4, "search": 2}[tier]
     # strands with many independent ambiguous errors: the number of candidate combinations is astronomically large
     # (2^m), the heap limit must stop the enumeration
-    for m in ([3, 20, 62, 63, 64, 65] if tier != "search" else [3, 63]):
+    # ... m = 1100: 2^1100 exceeds the largest binary64 number (a count kept in a float would be inf)
+    for m in ([3, 20, 62, 63, 64, 65, 1100] if tier != "search" else [3, 63, 1100]):
         yield "repair", {"k": 2, "rows": GC, "v0": 1, "s": "TCTCTATCTCTC" * m, "vt": "none", "indel": True,
                          "heap": 1e3, "kind": "ambiguous"}
     # strands with very MANY errors each of which has exactly one repair: a closed walk repeated R times with the same
